@@ -24,6 +24,8 @@ def from_seed(atom):
 
 
 def run(chk, repo, tier):
+    from .common import no_hidden_state
+    no_hidden_state(chk, repo, 'C18')
     chk.clause('C18-a', 'seed reaches default_rng; all draws come from that generator; nothing else nondeterministic', 10)
     chk.clause('C18-b', 'Poisson shot noise: integer, non-negative, bad inputs translated into ValueError', 3)
     chk.clause('C18-c', 'read noise: zero-mean normal draw with sigma=electrons of the frame shape, added to the frame', 2)
